@@ -1,6 +1,7 @@
 package main
 
 import (
+	"time"
 	"bufio"
 	"bytes"
 	"encoding/json"
@@ -49,6 +50,7 @@ func init() {
 		Gen:       c20Gen,
 		Run:       c20Run,
 		Rule:      "one seeded transcript of deterministic operations (SHA2/SHA3/Keccak digests incl. split writes, KMAC128, ChaCha20 PRG reads / UintN / permutations / Store, ECDSA key generation, encodings, decoding and verification on both curves, BLS key generation, signing, verification verdicts, PoP, aggregation, aggregate and batch verification, SPoCK, threshold key generation and reconstruction, two seeded Joint-Feldman runs (3 and 6 participants) with every message and the final keys; plus, always: the one-shot helpers ComputeSHA3_256 / ComputeSHA2_256 at block boundaries from unaligned memory, byte-by-byte and 8-byte-chunk writes from every address alignment, hasher objects reused after SumHash / ComputeHash / Reset, nil writes, a 3000-byte message, KMAC128 through SumHash with split writes / after Reset / continued after SumHash for output sizes 0, 1, 32, 167..169, 400 and keys of 16, 32, 163, 331 bytes, PRG reads of 0..1000 bytes on both paths, Store / Restore and every sampler (SubPermutation, Shuffle, Samples over 2^40, Permutation(300), UintN) on the restored generator, ECDSA private-key decoding at the scalars n-2..n+1, 0..3, 2^255-2..2^255+1 on both curves, compressed-key round trips incl. the other square root, Sign -> Verify round trips under six hashers (32, 48, 64 bytes), malformed signatures (r or s = 0 or n, wrong lengths, nil), BLS key removal for every cut incl. removing all, identity key and identity signature, doubled key, aggregate verification over distinct messages with per-index hashers and repeated keys, SPoCK against data, compressed BLS keys, threshold reconstruction (stateless and stateful) with 10, 14 and 21 signers taken from the highest of 20, 64 and 254 indices) executed by the same program built four ways: default (ADX assembly, amd64 Keccak assembly), CGO_CFLAGS=-D__BLST_PORTABLE__, -tags purego, CGO_ENABLED=0 -tags no_cgo (non-BLS part); a case is one build configuration; distinct by configuration",
+		CaseTimeout: 40 * time.Minute,
 		Shard:     1,
 	})
 }
